@@ -127,7 +127,16 @@ impl Cache for MemoryStore {
 
     fn flush(&self, header: CacheMetaData) {
         if header.time_to_live > 0 {
+            let now = self.timer.timestamp();
+            let flush_at = now + header.time_to_live as u64;
             self.memory.alter_all(|_key, mut value| {
+                // an item that expires on its own before the flush takes effect keeps
+                // its own expiration: a delayed flush must never prolong an item's life
+                let expires_at = value.header.timestamp + value.header.time_to_live as u64;
+                if value.header.time_to_live != 0 && expires_at <= flush_at {
+                    return value;
+                }
+                value.header.timestamp = now;
                 value.header.time_to_live = header.time_to_live;
                 value
             });
